@@ -148,3 +148,22 @@ M('C02', 'transform-touches-statistics', DS, "        _quantize_diagonal_statist
 TW('C02', 'twin-rename-and-reorder', DS, "    w = (1.0 - beta1) if moving_average_for_momentum else 1.0\n\n    shampoo_update_with_wd_momentum = (\n        state.momentum.to_float() * beta1 + w * shampoo_update_with_wd)",
    "    mom_weight = 1.0 if not moving_average_for_momentum else (1.0 - beta1)\n    w = mom_weight\n\n    shampoo_update_with_wd_momentum = (\n        w * shampoo_update_with_wd + beta1 * state.momentum.to_float())")
 TW('C02', 'twin-multiplier-inline', DS, "    shampoo_update = precond_grad * multiplier\n", "    shampoo_update = multiplier * precond_grad\n")
+
+# ------------------------------------------------------------------ C05
+M(['C05', 'C02'], 'graft-norm-from-grad', DS, "    grafting_update_norm = jnp.linalg.norm(grafting_update)", "    grafting_update_norm = jnp.linalg.norm(grad)")
+M(['C05', 'C02'], 'graft-norm-squared', DS, "      multiplier = (grafting_update_norm / (precond_grad_norm + _EPSILON))", "      multiplier = (grafting_update_norm / (precond_grad_norm**2 + _EPSILON))")
+M(['C05', 'C02'], 'graft-multiplier-inverted', DS, "      multiplier = (grafting_update_norm / (precond_grad_norm + _EPSILON))", "      multiplier = (precond_grad_norm / (grafting_update_norm + _EPSILON))")
+M(['C05', 'C02'], 'graft-add-not-scale', DS, "    shampoo_update = precond_grad * multiplier\n", "    shampoo_update = precond_grad * multiplier + 0.01 * grafting_update\n")
+M('C05', 'tf-norm-of-base-sq', GR, "          base_norm > 0.0, jnp.linalg.norm(graft_upd) / base_norm, 0.0", "          base_norm > 0.0, jnp.linalg.norm(graft_upd) / (base_norm * base_norm), 0.0")
+M('C05', 'tf-zero-guard-one', GR, "          base_norm > 0.0, jnp.linalg.norm(graft_upd) / base_norm, 0.0", "          base_norm > 0.0, jnp.linalg.norm(graft_upd) / base_norm, 1.0")
+M('C05', 'tf-masked-returns-base', GR, "      if _masked(base):\n        return graft_upd", "      if _masked(base):\n        return base")
+M('C05', 'tf-false-arm-base', GR, "          base * multiplier,\n          graft_upd,\n      )", "          base * multiplier,\n          base,\n      )")
+M('C05', 'tf-maybe-graft-args-swapped', GR, "        maybe_graft, graft_updates, base_updates, is_leaf=_masked", "        maybe_graft, base_updates, graft_updates, is_leaf=_masked")
+M('C05', 'tf-norm-sees-masked', GR, "    graft_updates, graft_state = norm.update(updates, state.norm, params)", "    graft_updates, graft_state = norm.update(mask(updates), state.norm, params)")
+M('C05', 'tf-dispatch-rmsprop-sgd', GR, "  if options.grafting_type == GraftingType.RMSPROP:\n    return _graft_with(\n        direction,\n        _rmsprop(options),", "  if options.grafting_type == GraftingType.RMSPROP:\n    return _graft_with(\n        direction,\n        _sgd(),")
+M('C05', 'tf-rmsprop-decay-swapped', GR, "        return snew * (1 - second_moment_decay) + second_moment_decay * prev", "        return snew * second_moment_decay + (1 - second_moment_decay) * prev")
+M('C05', 'tf-rmsprop-old-acc', GR, "        lambda g, acc: g * jax.lax.rsqrt(acc + epsilon), updates, new_state.acc", "        lambda g, acc: g * jax.lax.rsqrt(acc + epsilon), updates, state.acc")
+M('C05', 'tf-adafactor-no-signflip', GR, "  tx.append(optax.scale(-1))", "  tx.append(optax.scale(1))")
+M('C05', 'tf-mask-rank-lt', GR, "    if options.skip_preconditioning_rank1 and x.ndim <= 1:", "    if options.skip_preconditioning_rank1 and x.ndim < 1:")
+M('C05', 'tf-mask-all-dims', GR, "    if any(s > options.skip_preconditioning_any_dim_gt for s in x.shape):", "    if all(s > options.skip_preconditioning_any_dim_gt for s in x.shape):")
+TW('C05', 'twin-tf-multiplier-renamed', GR, "      base_norm = jnp.linalg.norm(base)\n      multiplier = jnp.where(\n          base_norm > 0.0, jnp.linalg.norm(graft_upd) / base_norm, 0.0\n      )", "      nb = jnp.linalg.norm(base)\n      ng = jnp.linalg.norm(graft_upd)\n      multiplier = jnp.where(0.0 < nb, ng / nb, 0.0)")
